@@ -511,6 +511,9 @@ func realMain(id, tier, replay string, workers int, seed int64, cache, work stri
 	if len(knownLines) > 0 {
 		cov["known_findings_observed"] = knownLines
 	}
+	if meta.Assumptions == nil {
+		meta.Assumptions = []string{}
+	}
 	ev := map[string]any{
 		"property_id": id,
 		"tier":        tier,
